@@ -45,46 +45,82 @@ theorem sendsK_len_ge (prog : Prog) (ρ : Nat → Nat → Nat) (k kb : Nat) {pc 
 
 /-! ### what a time slice sends -/
 
-def OutSend (prog : Prog) (ρ : Nat → Nat → Nat) (self : Pid) (x : Proc) (r : Proc × Outcome) (kb : Nat) : Prop :=
-  match r.2 with
-  | .send t m => ∃ rr, t = x.reg rr ∧ m.src = self ∧ 1 ≤ r.1.pc ∧
-      (prog.getD x.fn [])[r.1.pc - 1]? = some (.send rr m.tag m.seq) ∧
-      sendsK prog ρ x.fn r.1.pc kb = sendsK prog ρ x.fn x.pc kb ++ (if ρ x.fn rr = kb then [m.key] else [])
-  | _ => sendsK prog ρ x.fn r.1.pc kb = sendsK prog ρ x.fn x.pc kb
-
-theorem slice_sends (prog : Prog) (ρ : Nat → Nat → Nat) (now : Nat) (self : Pid) (kb : Nat) :
-    ∀ (fuel : Nat) (x : Proc), (slice prog now self fuel x).1.regs = x.regs ∧ OutSend prog ρ self x (slice prog now self fuel x) kb
-  | 0, x => ⟨rfl, rfl⟩
+theorem slice_pc (prog : Prog) (now : Nat) (self : Pid) : ∀ (fuel : Nat) (x : Proc),
+    x.pc ≤ (slice prog now self fuel x).1.pc ∧
+    nspawn ((prog.getD x.fn []).take (slice prog now self fuel x).1.pc) = nspawn ((prog.getD x.fn []).take x.pc)
+  | 0, x => ⟨Nat.le_refl _, rfl⟩
   | fuel + 1, x => by
     unfold slice
     split
-    · exact ⟨rfl, rfl⟩
+    · exact ⟨Nat.le_refl _, rfl⟩
+    · rename_i r tag seq hs
+      have hs' : (prog.getD x.fn [])[x.pc]? = some (.send r tag seq) := hs
+      refine ⟨Nat.le_succ _, ?_⟩
+      show nspawn ((prog.getD x.fn []).take (x.pc + 1)) = _
+      rw [nspawn_take_succ hs']; simp [isSpawnAct]
+    · split <;> exact ⟨Nat.le_refl _, rfl⟩
+    · exact ⟨Nat.le_refl _, rfl⟩
+    · rename_i srcs hs
+      have hs' : (prog.getD x.fn [])[x.pc]? = some (.select srcs) := hs
+      have hnsp : nspawn ((prog.getD x.fn []).take (x.pc + 1)) = nspawn ((prog.getD x.fn []).take x.pc) := by
+        rw [nspawn_take_succ hs']; simp [isSpawnAct]
+      split
+      · dsimp only
+        split
+        · exact slice_pc prog now self fuel { x with selInit := true, selStart := some now }
+        · exact ⟨Nat.le_refl _, rfl⟩
+      · dsimp only
+        split
+        · rename_i v mb _
+          have ih := slice_pc prog now self fuel
+            { x with selStart := none, pc := x.pc + 1, selInit := false, acc := x.acc ++ [v], mailbox := mb,
+                     awaiting := x.awaiting.filter (fun kv => kv.1 ∉ selTargets x srcs),
+                     awaitFailed := x.awaitFailed.filter (· ∉ selTargets x srcs) }
+          exact ⟨Nat.le_trans (Nat.le_succ _) ih.1, ih.2.trans hnsp⟩
+        · exact ⟨Nat.le_refl _, rfl⟩
+        · exact ⟨Nat.le_refl _, rfl⟩
+
+def OutSend (prog : Prog) (ρ : Nat → Nat → Nat) (self : Pid) (x : Proc) (r : Proc × Outcome) : Prop :=
+  match r.2 with
+  | .send t m => ∃ rr, t = x.reg rr ∧ m.src = self ∧ 1 ≤ r.1.pc ∧
+      (prog.getD x.fn [])[r.1.pc - 1]? = some (.send rr m.tag m.seq) ∧
+      ∀ kb, sendsK prog ρ x.fn r.1.pc kb = sendsK prog ρ x.fn x.pc kb ++ (if ρ x.fn rr = kb then [m.key] else [])
+  | _ => ∀ kb, sendsK prog ρ x.fn r.1.pc kb = sendsK prog ρ x.fn x.pc kb
+
+theorem slice_sends (prog : Prog) (ρ : Nat → Nat → Nat) (now : Nat) (self : Pid) :
+    ∀ (fuel : Nat) (x : Proc), (slice prog now self fuel x).1.regs = x.regs ∧ OutSend prog ρ self x (slice prog now self fuel x)
+  | 0, x => ⟨rfl, fun _ => rfl⟩
+  | fuel + 1, x => by
+    unfold slice
+    split
+    · exact ⟨rfl, fun _ => rfl⟩
     · rename_i r tag seq hs
       have hs' : (prog.getD x.fn [])[x.pc]? = some (.send r tag seq) := hs
       refine ⟨rfl, r, rfl, rfl, Nat.le_add_left _ _, ?_, ?_⟩
       · simpa using hs'
-      · show sendsK prog ρ x.fn (x.pc + 1) kb = _
+      · intro kb
+        show sendsK prog ρ x.fn (x.pc + 1) kb = _
         rw [sendsK_succ hs']
         simp only [isSendTo, Msg.key]
         split <;> rfl
     · split
-      · exact ⟨rfl, rfl⟩
-      · exact ⟨rfl, rfl⟩
-    · exact ⟨rfl, rfl⟩
+      · exact ⟨rfl, fun _ => rfl⟩
+      · exact ⟨rfl, fun _ => rfl⟩
+    · exact ⟨rfl, fun _ => rfl⟩
     · rename_i srcs hs
       have hs' : (prog.getD x.fn [])[x.pc]? = some (.select srcs) := hs
-      have hstep : sendsK prog ρ x.fn (x.pc + 1) kb = sendsK prog ρ x.fn x.pc kb := by
-        rw [sendsK_succ hs']; simp [isSendTo]
+      have hstep : ∀ kb, sendsK prog ρ x.fn (x.pc + 1) kb = sendsK prog ρ x.fn x.pc kb := by
+        intro kb; rw [sendsK_succ hs']; simp [isSendTo]
       split
       · dsimp only
         split
-        · have ih := slice_sends prog ρ now self kb fuel { x with selInit := true, selStart := some now }
+        · have ih := slice_sends prog ρ now self fuel { x with selInit := true, selStart := some now }
           exact ih
-        · exact ⟨rfl, rfl⟩
+        · exact ⟨rfl, fun _ => rfl⟩
       · dsimp only
         split
         · rename_i v mb _
-          have ih := slice_sends prog ρ now self kb fuel
+          have ih := slice_sends prog ρ now self fuel
             { x with selStart := none, pc := x.pc + 1, selInit := false, acc := x.acc ++ [v], mailbox := mb,
                      awaiting := x.awaiting.filter (fun kv => kv.1 ∉ selTargets x srcs),
                      awaitFailed := x.awaitFailed.filter (· ∉ selTargets x srcs) }
@@ -95,13 +131,13 @@ theorem slice_sends (prog : Prog) (ρ : Nat → Nat → Nat) (now : Nat) (self :
           · rename_i t m heq
             rw [heq] at h2
             obtain ⟨rr, h3, h4, h5, h6, h7⟩ := h2
-            exact ⟨rr, h3, h4, h5, h6, by rw [h7]; show sendsK prog ρ x.fn (x.pc + 1) kb ++ _ = _; rw [hstep]⟩
+            exact ⟨rr, h3, h4, h5, h6, fun kb => by rw [h7 kb]; show sendsK prog ρ x.fn (x.pc + 1) kb ++ _ = _; rw [hstep kb]⟩
           · rename_i hne
             split at h2
             · rename_i t m heq; exact absurd heq (hne t m)
-            · rw [h2]; exact hstep
-        · exact ⟨rfl, rfl⟩
-        · exact ⟨rfl, rfl⟩
+            · intro kb; rw [h2 kb]; exact hstep kb
+        · exact ⟨rfl, fun _ => rfl⟩
+        · exact ⟨rfl, fun _ => rfl⟩
 
 /-! ### a pid has one script; scripts persist -/
 
@@ -174,5 +210,736 @@ def Uniq (s : Sys) : Prop := ∀ q q' f, Sid s q f → Sid s q' f → q = q'
 
 theorem Uniq.back {s : Sys} (hs : SInv s) (m : Micro) (h : Uniq (microStep Rules.current s m)) : Uniq s :=
   fun q q' f h1 h2 => h q q' f (sid_mono_micro hs m q f h1) (sid_mono_micro hs m q' f h2)
+
+/-! ### backward descriptions of the worker steps: script and position -/
+
+/-- every process of `w'` was there with the same script and position -/
+def PcBack (w w' : WorkerSt) : Prop := ∀ p x', w'.procs p = some x' → ∃ x, w.procs p = some x ∧ x'.fn = x.fn ∧ x'.pc = x.pc
+
+theorem PcBack.refl (w : WorkerSt) : PcBack w w := fun _ x h => ⟨x, h, rfl, rfl⟩
+theorem PcBack.trans {a b c : WorkerSt} (h1 : PcBack a b) (h2 : PcBack b c) : PcBack a c := by
+  intro p z hz
+  obtain ⟨y, hy, e1, e2⟩ := h2 p z hz
+  obtain ⟨x, hx, e3, e4⟩ := h1 p y hy
+  exact ⟨x, hx, e1.trans e3, e2.trans e4⟩
+theorem PcBack.of_procs {w w' : WorkerSt} (h : w'.procs = w.procs) : PcBack w w' := fun p x hx => ⟨x, by rw [← h]; exact hx, rfl, rfl⟩
+
+theorem PcBack.updProc {w w' : WorkerSt} {q : Pid} {y y' : Proc} (hp : w'.procs = upd w.procs q (some y'))
+    (hy : w.procs q = some y) (e1 : y'.fn = y.fn) (e2 : y'.pc = y.pc) : PcBack w w' := by
+  intro p x' hx'
+  rw [hp] at hx'
+  by_cases e : p = q
+  · subst e; simp only [upd_same, Option.some.injEq] at hx'; subst hx'; exact ⟨y, hy, e1, e2⟩
+  · simp only [upd_apply, e, if_false] at hx'; exact ⟨x', hx', rfl, rfl⟩
+
+theorem PcBack.modProc (w : WorkerSt) (q : Pid) (f : Proc → Proc) (hf : ∀ y, (f y).fn = y.fn ∧ (f y).pc = y.pc) :
+    PcBack w (w.modProc q f) := by
+  unfold WorkerSt.modProc
+  split
+  · rename_i y hy; exact PcBack.updProc (q := q) (y := y) (y' := f y) rfl hy (hf y).1 (hf y).2
+  · exact PcBack.refl _
+
+theorem PcBack.wakeSelecting (w : WorkerSt) (q : Pid) : PcBack w (w.wakeSelecting q) :=
+  PcBack.of_procs (by unfold WorkerSt.wakeSelecting; split <;> rfl)
+
+theorem PcBack.notifyResult (w : WorkerSt) (a t : Pid) (r : Res) : PcBack w (w.notifyResult a t r) := by
+  cases r with
+  | ok v =>
+    show PcBack w (w.notifyResultOk a t v)
+    unfold WorkerSt.notifyResultOk
+    exact (PcBack.modProc w a _ (fun y => by split <;> exact ⟨rfl, rfl⟩)).trans (PcBack.wakeSelecting _ a)
+  | err =>
+    show PcBack w (w.notifyFailure a t)
+    unfold WorkerSt.notifyFailure
+    split
+    · split
+      · refine (PcBack.modProc w a _ ?_).trans (PcBack.wakeSelecting _ a)
+        intro y; exact ⟨rfl, rfl⟩
+      · exact PcBack.refl _
+    · exact PcBack.refl _
+
+theorem PcBack.applyResults (a : Pid) : ∀ (rs : Results) (w : WorkerSt), PcBack w (applyResults w a rs)
+  | [], w => PcBack.refl w
+  | (t0, some r) :: rest, w => by
+    unfold QM.Sys.applyResults; exact (PcBack.notifyResult w a t0 r).trans (PcBack.applyResults a rest _)
+  | (_, none) :: rest, w => by
+    unfold QM.Sys.applyResults; exact PcBack.applyResults a rest w
+
+theorem PcBack.foldl {α : Type} (f : WorkerSt → α → WorkerSt) (hf : ∀ w a, PcBack w (f w a)) :
+    ∀ (l : List α) (w : WorkerSt), PcBack w (l.foldl f w)
+  | [], w => PcBack.refl w
+  | a :: l, w => (hf w a).trans (PcBack.foldl f hf l (f w a))
+
+theorem PcBack.finish (w : WorkerSt) (cur : Pid) (x y : Proc) (ordQ : List Pid) (hy : w.procs cur = some y)
+    (e1 : x.fn = y.fn) (e2 : x.pc = y.pc) : PcBack w (w.finish cur x ordQ) := by
+  unfold WorkerSt.finish
+  dsimp only
+  refine (PcBack.updProc (w' := { w with procs := upd w.procs cur (some { x with result := some x.finalRes }) })
+    (q := cur) (y := y) (y' := { x with result := some x.finalRes }) rfl hy e1 e2).trans ?_
+  exact PcBack.foldl _ (fun w' a => PcBack.notifyResult w' a cur _) _ _
+
+/-- what a command does to scripts and positions of worker `i` -/
+theorem cmd_back {s : Sys} (i : Wid) (c : Cmd) (hok : ∀ p fn, c ≠ .resume p fn) (hst : ∀ p, c ≠ .start p) :
+    ∀ p x', ((handleCmdWith Rules.current s i c).wk i).procs p = some x' →
+      (∃ x, (s.wk i).procs p = some x ∧ x'.fn = x.fn ∧ x'.pc = x.pc) ∨
+      (∃ x q, c = .notifySpawn p q ∧ (s.wk i).procs p = some x ∧ x'.fn = x.fn ∧ x'.pc = x.pc + 1) ∨
+      (∃ f regs, c = .spawn p f regs ∧ x'.fn = f ∧ x'.pc = 0) := by
+  have lift : ∀ {w' : WorkerSt}, PcBack (s.wk i) w' → ∀ p x', w'.procs p = some x' →
+      (∃ x, (s.wk i).procs p = some x ∧ x'.fn = x.fn ∧ x'.pc = x.pc) ∨
+      (∃ x q, c = .notifySpawn p q ∧ (s.wk i).procs p = some x ∧ x'.fn = x.fn ∧ x'.pc = x.pc + 1) ∨
+      (∃ f regs, c = .spawn p f regs ∧ x'.fn = f ∧ x'.pc = 0) := fun h p x' hx' => Or.inl (h p x' hx')
+  cases c with
+  | misc => exact lift (PcBack.refl _)
+  | start p => exact absurd rfl (hst p)
+  | resume p fn => exact absurd rfl (hok p fn)
+  | spawn q fn regs =>
+    simp only [handleCmdWith]
+    split
+    · exact lift (PcBack.refl _)
+    · intro p x' hx'
+      simp only [setWk_wk, upd_same, WorkerSt.setProc] at hx'
+      by_cases e : p = q
+      · subst e
+        simp only [upd_same, Option.some.injEq] at hx'; subst hx'
+        exact Or.inr (Or.inr ⟨fn, regs, rfl, rfl, rfl⟩)
+      · simp only [upd_apply, e, if_false] at hx'
+        exact Or.inl ⟨x', hx', rfl, rfl⟩
+  | notifySpawn caller newPid =>
+    cases hx : (s.wk i).procs caller with
+    | none => simp only [handleCmdWith, hx, setWk_wk, upd_same]; exact lift (PcBack.of_procs rfl)
+    | some x =>
+      intro p x' hx'
+      have hp : ((handleCmdWith Rules.current s i (.notifySpawn caller newPid)).wk i).procs =
+          upd (s.wk i).procs caller (some { x with regs := x.regs ++ [newPid], pc := x.pc + 1, spawnIssued := false }) := by
+        simp only [handleCmdWith, hx]
+        split <;> simp
+      rw [hp] at hx'
+      by_cases e : p = caller
+      · subst e
+        simp only [upd_same, Option.some.injEq] at hx'; subst hx'
+        exact Or.inr (Or.inl ⟨x, newPid, rfl, hx, rfl, rfl⟩)
+      · simp only [upd_apply, e, if_false] at hx'
+        exact Or.inl ⟨x', hx', rfl, rfl⟩
+  | deliver t m =>
+    cases hx : (s.wk i).procs t with
+    | none => simp only [handleCmdWith, hx, setWk_wk, upd_same]; exact lift (PcBack.wakeSelecting _ t)
+    | some x =>
+      simp only [handleCmdWith, hx, setWk_wk, upd_same]
+      exact lift ((PcBack.updProc (q := t) (y := x) (y' := { x with mailbox := x.mailbox ++ [m] })
+        (w' := { s.wk i with procs := upd (s.wk i).procs t (some { x with mailbox := x.mailbox ++ [m] }) }) rfl hx rfl rfl).trans
+        (PcBack.wakeSelecting _ t))
+  | queryAwait a ts =>
+    simp only [handleCmdWith, pushEvt_wk, setWk_wk, upd_same]
+    exact lift (PcBack.of_procs (queryTargets_spec a ts (s.wk i)).1)
+  | updateAwait a rs =>
+    simp only [handleCmdWith, Rules.current, Bool.false_and, Bool.false_eq_true, if_false, setWk_wk, upd_same]
+    exact lift ((PcBack.applyResults a rs _).trans (PcBack.wakeSelecting _ a))
+  | getResult req p =>
+    simp only [handleCmdWith]
+    repeat' split
+    all_goals first
+      | exact lift (PcBack.refl _)
+      | (simp only [setWk_wk, upd_same]; exact lift (PcBack.of_procs rfl))
+
+theorem handleCmd_sent (R : Rules) (s : Sys) (i : Wid) (c : Cmd) : (handleCmdWith R s i c).sent = s.sent := by
+  cases c <;> simp only [handleCmdWith] <;> (repeat' split) <;> rfl
+
+theorem envStep1_sent (combine) (s : Sys) (w : Wid) : (envStep1With combine s w).sent = s.sent := by
+  unfold envStep1With
+  split
+  · rfl
+  · rename_i e rest _
+    cases e with
+    | spawn c fn regs coloc => simp only [handleEventWith, handleSpawn]; split <;> rfl
+    | deliver t m => simp only [handleEventWith, handleDeliver]; split <;> rfl
+    | await a ts =>
+      simp only [handleEventWith, handleAwait]
+      split
+      · rfl
+      · have : ∀ (l : List Wid) (s0 : Sys) (g : Wid → Cmd), (l.foldl (fun acc w => acc.pushCmd w (g w)) s0).sent = s0.sent := by
+          intro l
+          induction l with
+          | nil => intro s0 g; rfl
+          | cons a l ih => intro s0 g; simp only [List.foldl_cons]; rw [ih]; rfl
+        exact this _ _ _
+    | procResults a rs =>
+      simp only [handleEventWith, handleProcResultsWith]
+      repeat' split
+      all_goals rfl
+    | resultResp req r => rfl
+
+theorem checkStep_sent (s : Sys) (i : Wid) (ordE : List Pid) : (QM.Sys.checkStep s i ordE).sent = s.sent := by
+  have hrep : ∀ (a : Sys) (t : Pid), (reportTarget a i t).sent = a.sent := by
+    intro a t
+    unfold reportTarget
+    dsimp only
+    split
+    · rfl
+    · rename_i r _
+      have : ∀ (l : List Pid) (a0 : Sys), (l.foldl (fun acc a' =>
+          ({ acc.pushEvt i (.procResults a' [(t, some r)]) with reported := acc.reported ++ [(a', t)] } : Sys)) a0).sent = a0.sent := by
+        intro l; induction l with
+        | nil => intro a0; rfl
+        | cons y l ih => intro a0; simp only [List.foldl_cons]; rw [ih]; rfl
+      exact this _ _
+  have hans : ∀ (a : Sys) (p : Pid), (answerRequests a i p).sent = a.sent := by
+    intro a p
+    unfold answerRequests
+    dsimp only
+    split
+    · rfl
+    · rename_i r _
+      have : ∀ (l : List Nat) (a0 : Sys), (l.foldl (fun acc req => acc.pushEvt i (.resultResp req r)) a0).sent = a0.sent := by
+        intro l; induction l with
+        | nil => intro a0; rfl
+        | cons y l ih => intro a0; simp only [List.foldl_cons]; rw [ih]; rfl
+      exact this _ _
+  unfold QM.Sys.checkStep
+  dsimp only
+  have h1 : ∀ (l : List Pid) (a : Sys), (l.foldl (fun acc t => reportTarget acc i t) a).sent = a.sent := by
+    intro l; induction l with
+    | nil => intro a; rfl
+    | cons t l ih => intro a; simp only [List.foldl_cons]; rw [ih, hrep]
+  have h2 : ∀ (l : List Pid) (a : Sys), (l.foldl (fun acc p => answerRequests acc i p) a).sent = a.sent := by
+    intro l; induction l with
+    | nil => intro a; rfl
+    | cons t l ih => intro a; simp only [List.foldl_cons]; rw [ih, hans]
+  rw [h2, h1]
+
+/-- what an executor step does to positions, static send sequences and the ghost `sent` -/
+def ExecSends (ρ : Nat → Nat → Nat) (s s' : Sys) (i : Wid) : Prop :=
+  ∃ news : List (Pid × Msg), s'.sent = s.sent ++ news ∧
+    (∀ tm ∈ news, ∃ x rr pc', (s.wk i).procs tm.2.src = some x ∧ tm.1 = x.reg rr ∧ 1 ≤ pc' ∧
+      nspawn ((s.prog.getD x.fn []).take pc') = nspawn ((s.prog.getD x.fn []).take x.pc) ∧
+      (s.prog.getD x.fn [])[pc' - 1]? = some (.send rr tm.2.tag tm.2.seq)) ∧
+    ∀ p x', (s'.wk i).procs p = some x' → ∃ x, (s.wk i).procs p = some x ∧ x'.fn = x.fn ∧
+      ((x'.pc = x.pc ∧ ∀ tm ∈ news, tm.2.src ≠ p) ∨
+       (x.pc ≤ x'.pc ∧ nspawn ((s.prog.getD x.fn []).take x'.pc) = nspawn ((s.prog.getD x.fn []).take x.pc) ∧
+         ((news = [] ∧ ∀ kb, sendsK s.prog ρ x.fn x'.pc kb = sendsK s.prog ρ x.fn x.pc kb) ∨
+          (∃ t m rr, news = [(t, m)] ∧ m.src = p ∧ t = x.reg rr ∧ 1 ≤ x'.pc ∧
+             (s.prog.getD x.fn [])[x'.pc - 1]? = some (.send rr m.tag m.seq) ∧
+             ∀ kb, sendsK s.prog ρ x.fn x'.pc kb = sendsK s.prog ρ x.fn x.pc kb ++ (if ρ x.fn rr = kb then [m.key] else [])))))
+
+theorem execSends_of_back {ρ : Nat → Nat → Nat} {s s' : Sys} {i : Wid} (hs : s'.sent = s.sent) (h : PcBack (s.wk i) (s'.wk i)) :
+    ExecSends ρ s s' i := by
+  refine ⟨[], by rw [hs]; simp, ⟨fun _ h => (List.not_mem_nil h).elim, ?_⟩⟩
+  intro p x' hx'
+  obtain ⟨x, hx, e1, e2⟩ := h p x' hx'
+  exact ⟨x, hx, e1, Or.inl ⟨e2, fun _ h => (List.not_mem_nil h).elim⟩⟩
+
+theorem exec_sends (ρ : Nat → Nat → Nat) (s : Sys) (i : Wid) (fuel : Nat) (ordQ : List Pid) :
+    ExecSends ρ s (QM.Sys.execStep s i fuel ordQ) i := by
+  unfold QM.Sys.execStep
+  dsimp only
+  have hp0 : ((s.wk i).checkExpired s.prog s.now ordQ).procs = (s.wk i).procs := rfl
+  generalize (s.wk i).checkExpired s.prog s.now ordQ = w0 at hp0 ⊢
+  have h0 : PcBack (s.wk i) w0 := PcBack.of_procs hp0
+  split
+  · exact execSends_of_back rfl (by simp only [setWk_wk, upd_same]; exact h0)
+  · rename_i cur rest _
+    have h1 : PcBack (s.wk i) { w0 with queue := rest } := h0.trans (PcBack.of_procs rfl)
+    split
+    · exact execSends_of_back rfl (by simp only [setWk_wk, upd_same]; exact h1)
+    · rename_i x hx
+      have hxs : (s.wk i).procs cur = some x := by rw [← hp0]; exact hx
+      split
+      · exact execSends_of_back rfl (by
+          simp only [setWk_wk, upd_same]
+          exact h1.trans (PcBack.finish _ cur x x ordQ hx rfl rfl))
+      · have hsl := slice_sends s.prog ρ s.now cur fuel x
+        have hpc := slice_pc s.prog s.now cur fuel x
+        have hfn := slice_fn s.prog s.now cur fuel x
+        generalize slice s.prog s.now cur fuel x = r at hsl hpc hfn
+        obtain ⟨x', out⟩ := r
+        dsimp only at hsl hpc hfn ⊢
+        obtain ⟨hregs, hout⟩ := hsl
+        -- the generic shape: `cur` becomes a process with the script and position of `x'`, the others stay
+        have key : ∀ (s' : Sys) (news : List (Pid × Msg)), s'.sent = s.sent ++ news →
+            PcBack { w0 with queue := rest, procs := upd w0.procs cur (some x') } (s'.wk i) →
+            (∀ tm ∈ news, tm.2.src = cur) →
+            ((news = [] ∧ ∀ kb, sendsK s.prog ρ x.fn x'.pc kb = sendsK s.prog ρ x.fn x.pc kb) ∨
+              (∃ t m rr, news = [(t, m)] ∧ m.src = cur ∧ t = x.reg rr ∧ 1 ≤ x'.pc ∧
+                (s.prog.getD x.fn [])[x'.pc - 1]? = some (.send rr m.tag m.seq) ∧
+                ∀ kb, sendsK s.prog ρ x.fn x'.pc kb = sendsK s.prog ρ x.fn x.pc kb ++ (if ρ x.fn rr = kb then [m.key] else []))) →
+            ExecSends ρ s s' i := by
+          intro s' news hsent hback hsrc hk
+          refine ⟨news, hsent, ?_, ?_⟩
+          · intro tm htm
+            rcases hk with ⟨e, _⟩ | ⟨t, m, rr, e, h4, h3, h5, h6, _⟩
+            · rw [e] at htm; cases htm
+            · rw [e] at htm; simp only [List.mem_singleton] at htm; subst htm
+              exact ⟨x, rr, x'.pc, by rw [h4]; exact hxs, h3, h5, hpc.2, h6⟩
+          intro p y' hy'
+          obtain ⟨y, hy, g1, g2⟩ := hback p y' hy'
+          by_cases e : p = cur
+          · subst e
+            simp only [upd_same, Option.some.injEq] at hy; subst hy
+            refine ⟨x, hxs, g1.trans hfn, Or.inr ⟨by rw [g2]; exact hpc.1, by rw [g2]; exact hpc.2, ?_⟩⟩
+            rw [g2]; exact hk
+          · simp only [upd_apply, e, if_false] at hy
+            refine ⟨y, by rw [← hp0]; exact hy, g1, Or.inl ⟨g2, ?_⟩⟩
+            intro tm htm; rw [hsrc tm htm]; exact Ne.symm e
+        have knone : (∀ t m, out ≠ .send t m) → ∀ kb, sendsK s.prog ρ x.fn x'.pc kb = sendsK s.prog ρ x.fn x.pc kb := by
+          intro hne
+          unfold OutSend at hout
+          split at hout
+          · rename_i t m heq; exact absurd heq (hne t m)
+          · exact hout
+        cases out with
+        | cont => exact key _ [] (by simp) (by simp only [setWk_wk, upd_same]; exact PcBack.of_procs rfl) (by simp) (Or.inl ⟨rfl, knone (by simp)⟩)
+        | blocked => exact key _ [] (by simp) (by simp only [setWk_wk, upd_same]; exact PcBack.of_procs rfl) (by simp) (Or.inl ⟨rfl, knone (by simp)⟩)
+        | spawn f regs => exact key _ [] (by simp [Sys.pushEvt, Sys.setWk]) (by simp only [pushEvt_wk, setWk_wk, upd_same]; exact PcBack.of_procs rfl) (by simp) (Or.inl ⟨rfl, knone (by simp)⟩)
+        | awaitInit ts => exact key _ [] (by simp [Sys.pushEvt, Sys.setWk]) (by simp only [pushEvt_wk, setWk_wk, upd_same]; exact PcBack.of_procs rfl) (by simp) (Or.inl ⟨rfl, knone (by simp)⟩)
+        | failed =>
+          exact key _ [] (by simp [Sys.setWk]) (by
+            simp only [setWk_wk, upd_same]
+            exact PcBack.finish _ cur x' x' ordQ (by simp) rfl rfl) (by simp) (Or.inl ⟨rfl, knone (by simp)⟩)
+        | done =>
+          exact key _ [] (by simp [Sys.setWk]) (by
+            simp only [setWk_wk, upd_same]
+            exact PcBack.finish _ cur x' x' ordQ (by simp) rfl rfl) (by simp) (Or.inl ⟨rfl, knone (by simp)⟩)
+        | send t m =>
+          unfold OutSend at hout
+          dsimp only at hout
+          obtain ⟨rr, h3, h4, h5, h6, h7⟩ := hout
+          exact key _ [(t, m)] rfl (by simp only [pushEvt_wk, setWk_wk, upd_same]; exact PcBack.of_procs rfl)
+            (by intro tm htm; simp only [List.mem_singleton] at htm; subst htm; exact h4)
+            (Or.inr ⟨t, m, rr, rfl, h4, h3, h5, h6, h7⟩)
+
+/-! ### the send invariants -/
+
+/-- every logged send was made by a process whose script is THE sender of the target's script -/
+def M0 (snd : Nat → Nat) (s : Sys) : Prop :=
+  ∀ tm ∈ s.sent, ∃ wa xa, (s.wk wa).procs tm.2.src = some xa ∧ ∃ kb, Sid s tm.1 kb ∧ snd kb = xa.fn
+
+/-- what process `a` has sent to pid `b` so far is what its script sends, up to its position, to the
+script of `b` -/
+def M1 (ρ : Nat → Nat → Nat) (s : Sys) : Prop :=
+  ∀ wa a xa, (s.wk wa).procs a = some xa → ∀ b kb, Sid s b kb →
+    (sel a b s.sent).map Msg.key = sendsK s.prog ρ xa.fn xa.pc kb
+
+theorem Sid.routed {s : Sys} (hs : SInv s) {q : Pid} {f : Nat} (h : Sid s q f) : ∃ w, s.env.router q = some w := by
+  rcases h with ⟨w, y, hy, _⟩ | ⟨w, regs, hm⟩
+  · exact ⟨w, hs.r.placed w q (by simp [known, hy])⟩
+  · exact ⟨w, (hs.r.cmds w _ hm).1⟩
+
+theorem sel_eq_nil_of {a b : Pid} {l : List (Pid × Msg)} (h : ∀ tm ∈ l, ¬ (tm.1 = b ∧ tm.2.src = a)) : sel a b l = [] := by
+  unfold sel
+  rw [List.filterMap_eq_nil_iff]
+  intro tm htm
+  simp [h tm htm]
+
+theorem never_target {snd : Nat → Nat} {s : Sys} (hs : SInv s) (m0 : M0 snd s) {b : Pid} (hb : s.env.router b = none) (a : Pid) :
+    sel a b s.sent = [] := by
+  apply sel_eq_nil_of
+  rintro tm htm ⟨e, _⟩
+  obtain ⟨_, _, _, kb, hsid, _⟩ := m0 tm htm
+  rw [e] at hsid
+  obtain ⟨w, hw⟩ := hsid.routed hs
+  rw [hb] at hw; cases hw
+
+theorem never_source {snd : Nat → Nat} {s : Sys} (m0 : M0 snd s) {a : Pid} (ha : ∀ w, (s.wk w).procs a = none) (b : Pid) :
+    sel a b s.sent = [] := by
+  apply sel_eq_nil_of
+  rintro tm htm ⟨_, e⟩
+  obtain ⟨wa, xa, hxa, _⟩ := m0 tm htm
+  rw [e, ha wa] at hxa; cases hxa
+
+theorem base_mono (prog : Prog) (ar : Nat → Nat) (k : Nat) {j pc : Nat} (h : j ≤ pc) : base prog ar k j ≤ base prog ar k pc := by
+  unfold base nspawn
+  have : ((prog.getD k []).take j).Sublist ((prog.getD k []).take pc) := (List.take_prefix_take_left h).sublist
+  have := this.countP_le (p := isSpawnAct)
+  omega
+
+/-- a process has not yet sent anything to a script none of whose pids existed so far -/
+theorem no_earlier_sends {ρ : Nat → Nat → Nat} {ar : Nat → Nat} {σ : Nat → List (Nat × Nat)} {snd : Nat → Nat} {s s' : Sys}
+    (hk : KInv ρ ar σ s) (htab : SingleSenderTable s.prog ρ ar snd) (hu' : Uniq s') (hsm : ∀ q f, Sid s q f → Sid s' q f)
+    {b : Pid} {kb : Nat} (hb : s.env.router b = none) (hsb : Sid s' b kb)
+    {wa : Wid} {a : Pid} {xa : Proc} (hxa : (s.wk wa).procs a = some xa) :
+    sendsK s.prog ρ xa.fn xa.pc kb = [] := by
+  have hpa := hk.procs wa a xa hxa
+  unfold sendsK
+  rw [List.filterMap_eq_nil_iff]
+  intro act hact
+  obtain ⟨j, hj, hget⟩ := List.getElem_of_mem hact
+  have hjlt : j < xa.pc := by
+    have := hj; simp only [List.length_take] at this; omega
+  have hget' : (s.prog.getD xa.fn [])[j]? = some act := by
+    rw [List.getElem_take] at hget
+    rw [← hget]
+    exact List.getElem?_eq_getElem _
+  cases act with
+  | send r tag seq =>
+    simp only [isSendTo]
+    split
+    · rename_i hρ
+      exfalso
+      obtain ⟨_, hbound⟩ := htab.only _ _ _ _ _ hget'
+      have hr : r < xa.regs.length := by
+        rw [hpa.rlen]
+        exact Nat.lt_of_lt_of_le hbound (base_mono _ _ _ (Nat.le_of_lt hjlt))
+      have h1 := hsm _ _ (hpa.rsid r hr)
+      rw [hρ] at h1
+      have := hu' _ _ _ h1 hsb
+      have h2 := hpa.rsid r hr
+      rw [this] at h2
+      obtain ⟨w, hw⟩ := h2.routed hk.wi.si
+      rw [hb] at hw; cases hw
+    · rfl
+  | spawn f pass => rfl
+  | select srcs => rfl
+  | fail => rfl
+
+/-- script information of the post-state read back: when no new pid is born -/
+theorem Sid.back_of {s s' : Sys}
+    (hp : ∀ w p x', (s'.wk w).procs p = some x' → (∃ x, (s.wk w).procs p = some x ∧ x'.fn = x.fn) ∨ Sid s p x'.fn)
+    (hc : ∀ w c, c ∈ s'.cmdQ w → c ∈ s.cmdQ w) : ∀ q f, Sid s' q f → Sid s q f := by
+  rintro q f (⟨w, y', hy', hf⟩ | ⟨w, regs, hm⟩)
+  · rcases hp w q y' hy' with ⟨y, hy, e⟩ | h
+    · exact Or.inl ⟨w, y, hy, e.symm.trans hf⟩
+    · rw [hf] at h; exact h
+  · exact Or.inr ⟨w, regs, hc w _ hm⟩
+
+structure MInv (ρ : Nat → Nat → Nat) (snd : Nat → Nat) (s : Sys) : Prop where
+  m0 : M0 snd s
+  m1 : M1 ρ s
+
+/-- steps that send nothing -/
+theorem MInv.step_nosend {ρ : Nat → Nat → Nat} {ar : Nat → Nat} {σ : Nat → List (Nat × Nat)} {snd : Nat → Nat} {s s' : Sys}
+    (hk : KInv ρ ar σ s) (htab : SingleSenderTable s.prog ρ ar snd) (hu' : Uniq s') (hm : MInv ρ snd s)
+    (hprog : s'.prog = s.prog) (hsent : s'.sent = s.sent)
+    (hsm : ∀ q f, Sid s q f → Sid s' q f)
+    (hfk : ∀ w p x, (s.wk w).procs p = some x → ∃ x', (s'.wk w).procs p = some x' ∧ x'.fn = x.fn)
+    (hback : ∀ w p x', (s'.wk w).procs p = some x' →
+       (∃ x, (s.wk w).procs p = some x ∧ x'.fn = x.fn ∧ ∀ kb, sendsK s.prog ρ x'.fn x'.pc kb = sendsK s.prog ρ x.fn x.pc kb) ∨
+       ((∀ w0, (s.wk w0).procs p = none) ∧ x'.pc = 0))
+    (hsidback : ∀ b kb, Sid s' b kb → Sid s b kb ∨ s.env.router b = none) : MInv ρ snd s' := by
+  refine ⟨?_, ?_⟩
+  · intro tm htm
+    rw [hsent] at htm
+    obtain ⟨wa, xa, hxa, kb, hsid, hsnd⟩ := hm.m0 tm htm
+    obtain ⟨xa', hxa', hf⟩ := hfk wa _ xa hxa
+    exact ⟨wa, xa', hxa', kb, hsm _ _ hsid, by rw [hf]; exact hsnd⟩
+  · intro wa a x' hx' b kb hsb
+    rw [hsent, hprog]
+    rcases hback wa a x' hx' with ⟨x, hx, _, hsk⟩ | ⟨hnone, hpc⟩
+    · rw [hsk kb]
+      rcases hsidback b kb hsb with h1 | h1
+      · exact hm.m1 wa a x hx b kb h1
+      · rw [never_target hk.wi.si hm.m0 h1 a, no_earlier_sends hk htab hu' hsm h1 hsb hx]; rfl
+    · rw [never_source hm.m0 hnone b, hpc]; simp [sendsK]
+
+theorem MInv.envStep1 {ρ : Nat → Nat → Nat} {ar : Nat → Nat} {σ : Nat → List (Nat × Nat)} {snd : Nat → Nat} {s : Sys}
+    (hk : KInv ρ ar σ s) (htab : SingleSenderTable s.prog ρ ar snd) (w0 : Wid)
+    (hu' : Uniq (envStep1With Rules.current.combine s w0)) (hm : MInv ρ snd s) :
+    MInv ρ snd (envStep1With Rules.current.combine s w0) := by
+  have hwk := envStep1_wk Rules.current.combine s w0
+  obtain ⟨hprog, hmono, hnew, _⟩ := envStep1_cmdSpec Rules.current.combine hk.wi.si.r w0
+  refine hm.step_nosend hk htab hu' hprog (envStep1_sent _ s w0) (sid_mono_micro hk.wi.si (.env w0))
+    (fun w p x hx => ⟨x, by rw [hwk]; exact hx, rfl⟩)
+    (fun w p x' hx' => Or.inl ⟨x', by rw [hwk] at hx'; exact hx', rfl, fun _ => rfl⟩) ?_
+  rintro b kb (⟨w, y, hy, hf⟩ | ⟨w, regs, hmem⟩)
+  · exact Or.inl (Or.inl ⟨w, y, by rw [hwk] at hy; exact hy, hf⟩)
+  · rcases hnew w _ hmem with h1 | h1 | ⟨c0, f, regs', coloc, rest, hq0, h1 | ⟨h1, _⟩⟩
+    · exact Or.inl (Or.inr ⟨w, regs, h1⟩)
+    · have := h1.1; simp [cmdCreate] at this
+    · simp only [Cmd.spawn.injEq] at h1; obtain ⟨rfl, _, _⟩ := h1
+      right
+      cases hr : s.env.router s.env.nextPid with
+      | none => rfl
+      | some w1 => exact absurd (hk.wi.si.r.below _ _ hr) (Nat.lt_irrefl _)
+    · cases h1
+
+theorem MInv.checkStep {ρ : Nat → Nat → Nat} {ar : Nat → Nat} {σ : Nat → List (Nat × Nat)} {snd : Nat → Nat} {s : Sys}
+    (hk : KInv ρ ar σ s) (htab : SingleSenderTable s.prog ρ ar snd) (i : Wid) (ordE : List Pid)
+    (hu' : Uniq (QM.Sys.checkStep s i ordE)) (hm : MInv ρ snd s) : MInv ρ snd (QM.Sys.checkStep s i ordE) := by
+  have hc := CheckRel.checkStep s i ordE
+  have hprocs : ∀ w, ((QM.Sys.checkStep s i ordE).wk w).procs = (s.wk w).procs := by
+    intro w
+    by_cases e : w = i
+    · subst e; exact hc.procs
+    · rw [hc.wkOther w e]
+  refine hm.step_nosend hk htab hu' (CheckEv.checkStep s i ordE).prog (checkStep_sent s i ordE)
+    (sid_mono_micro hk.wi.si (.check i ordE))
+    (fun w p x hx => ⟨x, by rw [hprocs]; exact hx, rfl⟩)
+    (fun w p x' hx' => Or.inl ⟨x', by rw [hprocs] at hx'; exact hx', rfl, fun _ => rfl⟩) ?_
+  intro b kb hsb
+  exact Or.inl (Sid.back_of (fun w p x' hx' => Or.inl ⟨x', by rw [hprocs] at hx'; exact hx', rfl⟩)
+    (fun w c hcm => by rw [hc.cmdQ] at hcm; exact hcm) b kb hsb)
+
+theorem MInv.cmdStep1 {ρ : Nat → Nat → Nat} {ar : Nat → Nat} {σ : Nat → List (Nat × Nat)} {snd : Nat → Nat} {s : Sys}
+    (hk : KInv ρ ar σ s) (htab : SingleSenderTable s.prog ρ ar snd) (i : Wid)
+    (hu' : Uniq (cmdStep1With Rules.current s i)) (hm : MInv ρ snd s) : MInv ρ snd (cmdStep1With Rules.current s i) := by
+  have hsm := sid_mono_micro hk.wi.si (.cmd i)
+  have hfk := fnKeep_micro hk.wi.si (.cmd i)
+  change ∀ q f, Sid s q f → Sid (cmdStep1With Rules.current s i) q f at hsm
+  change ∀ w, FnKeep (s.wk w) ((cmdStep1With Rules.current s i).wk w) at hfk
+  revert hu' hsm hfk
+  unfold cmdStep1With
+  split
+  · intro _ _ _; exact hm
+  · rename_i c rest hq
+    intro hu' hsm hfk
+    have hhead : c ∈ s.cmdQ i := by rw [hq]; simp
+    have hok := hk.wi.si.r.cmds i c hhead
+    have hf := handleCmd_frame Rules.current { s with cmdQ := upd s.cmdQ i rest } i c
+    have hcb := cmd_back (s := { s with cmdQ := upd s.cmdQ i rest }) i c
+      (fun p fn e => by subst e; exact hok.elim) (fun p e => by subst e; exact hok.elim)
+    obtain ⟨hcq, _, hprog, _, _, hoth⟩ := hf
+    have hcq' : ∀ w c', c' ∈ (handleCmdWith Rules.current { s with cmdQ := upd s.cmdQ i rest } i c).cmdQ w → c' ∈ s.cmdQ w := by
+      intro w c' hc'; rw [hcq] at hc'; exact mem_upd_tail hq hc'
+    -- backward description of all workers
+    have hback : ∀ w p x', ((handleCmdWith Rules.current { s with cmdQ := upd s.cmdQ i rest } i c).wk w).procs p = some x' →
+        (∃ x, (s.wk w).procs p = some x ∧ x'.fn = x.fn ∧ ∀ kb, sendsK s.prog ρ x'.fn x'.pc kb = sendsK s.prog ρ x.fn x.pc kb) ∨
+        ((∀ w0, (s.wk w0).procs p = none) ∧ x'.pc = 0) := by
+      intro w p x' hx'
+      by_cases e : w = i
+      · subst e
+        rcases hcb p x' hx' with ⟨x, hx, e1, e2⟩ | ⟨x, q, hc, hx, e1, e2⟩ | ⟨f, regs, hc, e1, e2⟩
+        · exact Or.inl ⟨x, hx, e1, fun kb => by rw [e1, e2]⟩
+        · subst hc
+          obtain ⟨f, pass, hsc, _⟩ := (hk.procs w p x hx).notif q hhead
+          refine Or.inl ⟨x, hx, e1, fun kb => ?_⟩
+          rw [e1, e2, sendsK_succ hsc]; simp [isSendTo]
+        · subst hc
+          refine Or.inr ⟨?_, e2⟩
+          intro w0
+          cases hp : (s.wk w0).procs p with
+          | none => rfl
+          | some y =>
+            exfalso
+            have r1 := hk.wi.si.r.placed w0 p (by simp [known, hp])
+            have r2 : s.env.router p = some w := hok.1
+            rw [r1] at r2; simp only [Option.some.injEq] at r2; subst r2
+            exact (hk.wi.si.fresh w0).2 p (mem_creates.mpr ⟨f, regs, hhead⟩) (by simp [known, hp])
+      · rw [(hoth w e).1] at hx'
+        exact Or.inl ⟨x', hx', rfl, fun _ => rfl⟩
+    refine hm.step_nosend hk htab hu' hprog (handleCmd_sent _ _ i c) hsm (fun w p x hx => hfk w p x hx) hback ?_
+    intro b kb hsb
+    refine Or.inl (Sid.back_of ?_ hcq' b kb hsb)
+    intro w p x' hx'
+    by_cases e : w = i
+    · subst e
+      rcases hcb p x' hx' with ⟨x, hx, e1, _⟩ | ⟨x, q, _, hx, e1, _⟩ | ⟨f, regs, hc, e1, _⟩
+      · exact Or.inl ⟨x, hx, e1⟩
+      · exact Or.inl ⟨x, hx, e1⟩
+      · subst hc; rw [e1]; exact Or.inr (Or.inr ⟨w, regs, hhead⟩)
+    · rw [(hoth w e).1] at hx'
+      exact Or.inl ⟨x', hx', rfl⟩
+
+theorem MInv.execStep {ρ : Nat → Nat → Nat} {ar : Nat → Nat} {σ : Nat → List (Nat × Nat)} {snd : Nat → Nat} {s : Sys}
+    (hk : KInv ρ ar σ s) (htab : SingleSenderTable s.prog ρ ar snd) (i : Wid) (fuel : Nat) (ordQ : List Pid)
+    (hu' : Uniq (QM.Sys.execStep s i fuel ordQ)) (hm : MInv ρ snd s) : MInv ρ snd (QM.Sys.execStep s i fuel ordQ) := by
+  have hsm : ∀ q f, Sid s q f → Sid (QM.Sys.execStep s i fuel ordQ) q f := sid_mono_micro hk.wi.si (.exec i fuel ordQ)
+  have hfk : ∀ w, FnKeep (s.wk w) ((QM.Sys.execStep s i fuel ordQ).wk w) := fnKeep_micro hk.wi.si (.exec i fuel ordQ)
+  have hu : Uniq s := Uniq.back hk.wi.si (.exec i fuel ordQ) hu'
+  obtain ⟨hcmd, _, hprog, _, _, _, hoth⟩ := execStep_frame s i fuel ordQ
+  obtain ⟨news, hsent, hnews, hprocs⟩ := exec_sends ρ s i fuel ordQ
+  generalize QM.Sys.execStep s i fuel ordQ = s' at *
+  -- registers of a sender: the register of a send holds a pid of the script the typing says
+  have hreg : ∀ {p : Pid} {x : Proc} {rr pc' tag seq : Nat}, (s.wk i).procs p = some x → 1 ≤ pc' →
+      nspawn ((s.prog.getD x.fn []).take pc') = nspawn ((s.prog.getD x.fn []).take x.pc) →
+      (s.prog.getD x.fn [])[pc' - 1]? = some (.send rr tag seq) →
+      Sid s (x.reg rr) (ρ x.fn rr) ∧ snd (ρ x.fn rr) = x.fn := by
+    intro p x rr pc' tag seq hx h1 h2 h3
+    have hpx := hk.procs i p x hx
+    obtain ⟨t1, t2⟩ := htab.only _ _ _ _ _ h3
+    have hr : rr < x.regs.length := by
+      rw [hpx.rlen]
+      refine Nat.lt_of_lt_of_le t2 ?_
+      have := base_mono s.prog ar x.fn (show pc' - 1 ≤ pc' by omega)
+      unfold base at this ⊢
+      omega
+    have : x.reg rr = x.regs[rr] := by simp [Proc.reg, hr]
+    rw [this]
+    exact ⟨hpx.rsid rr hr, t1⟩
+  have hsidback : ∀ b kb, Sid s' b kb → Sid s b kb := by
+    apply Sid.back_of
+    · intro w p x' hx'
+      by_cases e : w = i
+      · subst e
+        obtain ⟨x, hx, e1, _⟩ := hprocs p x' hx'
+        exact Or.inl ⟨x, hx, e1⟩
+      · rw [(hoth w e).1] at hx'; exact Or.inl ⟨x', hx', rfl⟩
+    · intro w c hc; rw [hcmd] at hc; exact hc
+  refine ⟨?_, ?_⟩
+  · intro tm htm
+    rw [hsent] at htm
+    rcases List.mem_append.mp htm with h1 | h1
+    · obtain ⟨wa, xa, hxa, kb, hsid, hsnd⟩ := hm.m0 tm h1
+      obtain ⟨xa', hxa', hf⟩ := hfk wa _ xa hxa
+      exact ⟨wa, xa', hxa', kb, hsm _ _ hsid, by rw [hf]; exact hsnd⟩
+    · obtain ⟨x, rr, pc', hx, ht, h5, h6, h7⟩ := hnews tm h1
+      obtain ⟨x', hx', hf⟩ := hfk i _ x hx
+      obtain ⟨g1, g2⟩ := hreg hx h5 h6 h7
+      exact ⟨i, x', hx', ρ x.fn rr, by rw [ht]; exact hsm _ _ g1, by rw [hf]; exact g2⟩
+  · intro wa a x' hx' b kb hsb'
+    have hsb := hsidback b kb hsb'
+    rw [hsent, hprog, sel_append, List.map_append]
+    by_cases e : wa = i
+    · subst e
+      obtain ⟨x, hx, e1, hcase⟩ := hprocs a x' hx'
+      rcases hcase with ⟨e2, hsrc⟩ | ⟨_, _, hk2⟩
+      · have hnil : sel a b news = [] := sel_eq_nil_of (fun tm htm ⟨_, h2⟩ => hsrc tm htm h2)
+        rw [hnil, e1, e2]
+        simpa using hm.m1 wa a x hx b kb hsb
+      · rcases hk2 with ⟨en, hsk⟩ | ⟨t, m, rr, en, h4, h3, h5, h6, hsk⟩
+        · rw [en, e1, hsk kb]; simpa using hm.m1 wa a x hx b kb hsb
+        · rw [en, e1, hsk kb, hm.m1 wa a x hx b kb hsb, sel_single]
+          congr 1
+          have hnsp : nspawn ((s.prog.getD x.fn []).take x'.pc) = nspawn ((s.prog.getD x.fn []).take x.pc) := by
+            obtain ⟨y, hy, _, hc2⟩ := hprocs a x' hx'
+            rw [hx] at hy; simp only [Option.some.injEq] at hy; subst hy
+            rcases hc2 with ⟨e2, hsrc⟩ | ⟨_, h2, _⟩
+            · exact absurd h4 (hsrc (t, m) (by rw [en]; simp))
+            · exact h2
+          obtain ⟨g1, _⟩ := hreg hx h5 hnsp h6
+          rw [← h3] at g1
+          by_cases hρ : ρ x.fn rr = kb
+          · have htb : t = b := hu _ _ _ (hρ ▸ g1) hsb
+            simp [hρ, htb, h4]
+          · have htb : t ≠ b := by
+              intro e; subst e; exact hρ (g1.functional hk.wi.si hsb)
+            simp [hρ, htb]
+    · have hx : (s.wk wa).procs a = some x' := by rw [← (hoth wa e).1]; exact hx'
+      have hnil : sel a b news = [] := by
+        apply sel_eq_nil_of
+        rintro tm htm ⟨_, h2⟩
+        obtain ⟨x, _, _, hxs, _⟩ := hnews tm htm
+        rw [h2] at hxs
+        have r1 := hk.wi.si.r.placed i a (by simp [known, hxs])
+        have r2 := hk.wi.si.r.placed wa a (by simp [known, hx])
+        rw [r1] at r2; simp only [Option.some.injEq] at r2; exact e r2.symm
+      rw [hnil]; simpa using hm.m1 wa a x' hx b kb hsb
+
+theorem MInv.micro {ρ : Nat → Nat → Nat} {ar : Nat → Nat} {σ : Nat → List (Nat × Nat)} {snd : Nat → Nat} {s : Sys}
+    (hk : KInv ρ ar σ s) (htab : SingleSenderTable s.prog ρ ar snd) (m : Micro)
+    (hu' : Uniq (microStep Rules.current s m)) (hm : MInv ρ snd s) : MInv ρ snd (microStep Rules.current s m) := by
+  cases m with
+  | env w => exact hm.envStep1 hk htab w hu'
+  | cmd i => exact hm.cmdStep1 hk htab i hu'
+  | exec i fuel ordQ => exact hm.execStep hk htab i fuel ordQ hu'
+  | check i ordE => exact hm.checkStep hk htab i ordE hu'
+  | tick ms =>
+    exact hm.step_nosend hk htab hu' rfl rfl (fun _ _ h => h) (fun w p x hx => ⟨x, hx, rfl⟩)
+      (fun w p x' hx' => Or.inl ⟨x', hx', rfl, fun _ => rfl⟩) (fun b kb h => Or.inl h)
+
+/-! ### arrivals follow the static streams -/
+
+theorem mem_sel {a b : Pid} {l : List (Pid × Msg)} {m : Msg} : m ∈ sel a b l ↔ (b, m) ∈ l ∧ m.src = a := by
+  unfold sel
+  rw [List.mem_filterMap]
+  constructor
+  · rintro ⟨tm, htm, h⟩
+    split at h
+    · rename_i hc
+      simp only [Option.some.injEq] at h; subst h
+      obtain ⟨e1, e2⟩ := hc
+      exact ⟨by rw [← e1]; exact htm, e2⟩
+    · cases h
+  · rintro ⟨h1, h2⟩
+    exact ⟨(b, m), h1, by simp [h2]⟩
+
+theorem filter_eq_sel (a b : Pid) : ∀ (l : List (Pid × Msg)), (∀ e ∈ l, e.1 = b → e.2.src = a) →
+    (l.filter (fun e => e.1 = b)).map (fun e => e.2) = sel a b l
+  | [], _ => rfl
+  | e :: l, h => by
+    have ih := filter_eq_sel a b l (fun e' he' => h e' (List.mem_cons_of_mem _ he'))
+    unfold sel at ih ⊢
+    by_cases hb : e.1 = b
+    · have hs := h e (by simp) hb
+      simp only [List.filter_cons, hb, decide_true, if_true, List.map_cons, List.filterMap_cons, hs, and_self]
+      rw [ih]
+    · simp only [List.filter_cons, hb, decide_false, Bool.false_eq_true, if_false, List.filterMap_cons, false_and]
+      exact ih
+
+theorem sendsK_le_stream (prog : Prog) (ρ : Nat → Nat → Nat) (k pc kb : Nat) :
+    sendsK prog ρ k pc kb <+: sendsK prog ρ k (prog.getD k []).length kb := by
+  rcases Nat.le_total pc (prog.getD k []).length with h | h
+  · exact sendsK_prefix prog ρ k kb h
+  · rw [sendsK_len_ge prog ρ k kb h]; exact List.prefix_refl _
+
+/-- with one sender script per mailbox and no script run twice, arrivals follow the static streams -/
+theorem streamOK_of {ρ : Nat → Nat → Nat} {snd : Nat → Nat} {s : Sys} (hs : SInv s) (hd : DInv s) (hu : Uniq s)
+    (hm : MInv ρ snd s) : StreamOK (streamOf s.prog ρ snd) s := by
+  intro w p x hx _
+  -- every message that arrived at `p` came from a process of the sender script
+  have hsrc : ∀ e ∈ s.appended, e.1 = p → ∃ wa xa, (s.wk wa).procs e.2.src = some xa ∧ xa.fn = snd x.fn := by
+    intro e he hp
+    have h1 : e.2 ∈ sel e.2.src p s.appended := mem_sel.mpr ⟨by rw [← hp]; exact he, rfl⟩
+    have hc := hd.conserve e.2.src p
+    have h2 : e.2 ∈ sel e.2.src p s.sent := by
+      rw [← hc]; simp only [List.mem_append]; exact Or.inl (Or.inl h1)
+    obtain ⟨h3, _⟩ := mem_sel.mp h2
+    obtain ⟨wa, xa, hxa, kb, hsid, hsnd⟩ := hm.m0 _ h3
+    have : x.fn = kb := hsid.proc_fn hs hx
+    exact ⟨wa, xa, hxa, by rw [this]; exact hsnd.symm⟩
+  cases hL : s.appended.filter (fun e => e.1 = p) with
+  | nil => simp
+  | cons e0 L0 =>
+    have he0 : e0 ∈ s.appended ∧ e0.1 = p := by
+      have : e0 ∈ s.appended.filter (fun e => e.1 = p) := by rw [hL]; simp
+      simpa using List.mem_filter.mp this
+    obtain ⟨wa0, xa0, hxa0, hf0⟩ := hsrc e0 he0.1 he0.2
+    have hall : ∀ e ∈ s.appended, e.1 = p → e.2.src = e0.2.src := by
+      intro e he hp
+      obtain ⟨wa, xa, hxa, hf⟩ := hsrc e he hp
+      exact hu _ _ (snd x.fn) (Or.inl ⟨wa, xa, hxa, hf⟩) (Or.inl ⟨wa0, xa0, hxa0, hf0⟩)
+    have hsel := filter_eq_sel e0.2.src p s.appended hall
+    rw [← hL]
+    have hmap : (s.appended.filter (fun e => e.1 = p)).map (fun e => e.2.key) =
+        ((s.appended.filter (fun e => e.1 = p)).map (fun e => e.2)).map Msg.key := by
+      rw [List.map_map]; rfl
+    rw [hmap, hsel]
+    have hpre : sel e0.2.src p s.appended <+: sel e0.2.src p s.sent := by
+      have := hd.conserve e0.2.src p
+      simp only [List.append_assoc] at this
+      exact ⟨_, this⟩
+    have h1 := hm.m1 wa0 _ xa0 hxa0 p x.fn (Or.inl ⟨w, x, hx, rfl⟩)
+    refine (hpre.map Msg.key).trans ?_
+    rw [h1, hf0]
+    exact sendsK_le_stream _ _ _ _ _
+
+theorem MInv.of_started {ρ : Nat → Nat → Nat} {snd : Nat → Nat} {s : Sys} (h : Started s) : MInv ρ snd s := by
+  refine ⟨?_, ?_⟩
+  · intro tm htm; rw [h.sent] at htm; exact (List.not_mem_nil htm).elim
+  intro wa a xa hxa b kb _
+  rw [h.sent]
+  rw [h.procs] at hxa
+  split at hxa
+  · simp only [Option.some.injEq] at hxa; subst hxa; simp [sendsK]
+  · cases hxa
+
+/-- **The Kahn invariant without a hypothesis on arrivals**: for a script table with a register
+typing in which every mailbox has one sender script, in every run whose final state has no script
+run by two pids, every process's history is the trace of its script over the STATIC stream of its
+mailbox (the sender script's send sequence), and the arrival histories follow those streams. -/
+theorem kahn_invariant_unique (ρ : Nat → Nat → Nat) (ar : Nat → Nat) (snd : Nat → Nat) (n : Nat) (prog : Prog) (req : Nat)
+    (hn : 0 < n) (hwf : ProgWF prog) (hty : RegTyping prog ρ ar) (htab : SingleSenderTable prog ρ ar snd) (cs : List Choice)
+    (hu : Uniq (run (Sys.init n prog req) cs)) :
+    PreStart (run (Sys.init n prog req) cs) ∨
+      (KInv ρ ar (streamOf prog ρ snd) (run (Sys.init n prog req) cs) ∧ StreamOK (streamOf prog ρ snd) (run (Sys.init n prog req) cs)) := by
+  have key := invariant_from_init Rules.current
+    (fun s => SInv s ∧ DInv s ∧ (s.prog = prog → Uniq s →
+      KInv ρ ar (streamOf prog ρ snd) s ∧ MInv ρ snd s ∧ StreamOK (streamOf prog ρ snd) s))
+    (fun s hs => ⟨SInv.of_started hs, DInv.of_started hs, fun hp _ =>
+      ⟨KInv.of_started hs (hp ▸ hty), MInv.of_started hs, by
+        intro w p x _ _; rw [hs.appended]; simp⟩⟩)
+    (fun s m ⟨hsi, hdi, hk⟩ => by
+      have hprog := microStep_prog Rules.current s m
+      have hsi' := hsi.micro Rules.current_sane m
+      have hdi' := hdi.micro Rules.current_tame m
+      refine ⟨hsi', hdi', fun hp hu' => ?_⟩
+      have hp0 : s.prog = prog := hprog.symm.trans hp
+      obtain ⟨hk1, hm1, _⟩ := hk hp0 (Uniq.back hsi m hu')
+      have hm' : MInv ρ snd (microStep Rules.current s m) := hm1.micro hk1 (hp0 ▸ htab) m hu'
+      have hsd' : StreamOK (streamOf prog ρ snd) (microStep Rules.current s m) := by
+        have := streamOK_of hsi' hdi' hu' hm'
+        rw [hp] at this; exact this
+      exact ⟨hk1.micro m hsd', hm', hsd'⟩) n prog req hn hwf cs
+  rcases key with h | ⟨_, _, h⟩
+  · exact Or.inl h
+  · obtain ⟨h1, _, h3⟩ := h (run_prog _ _ _) hu
+    exact Or.inr ⟨h1, h3⟩
 
 end QM.Sys
